@@ -153,6 +153,23 @@ private:
     bool m_can_make_major_changes;
 };
 
+#ifdef ADAPTAGRAMS_VERIF
+// Verification hook, compiled only with -DADAPTAGRAMS_VERIF (never in a normal
+// build).  When set, it is called before (phase 0) and after (phase 1) every
+// structural rewriting step of HyperedgeImprover::execute():
+//   stage "rzle": removeZeroLengthEdges(node, nullptr) for one tree root,
+//   stage "move": one call of moveJunctionAlongCommonEdge(node, changed);
+//                 'result' is its return value (phase 1 only).
+//   stage "write": phase 1 only, after both passes of
+//                 node->writeEdgesToConns(nullptr, pass) for one tree root.
+// The hook must not modify anything.
+#define ADAPTAGRAMS_VERIF_HYPERTREE_HOOK 1
+typedef void (*HyperedgeTreeVerifHook)(HyperedgeImprover *improver,
+        const char *stage, int phase, HyperedgeTreeNode *node,
+        HyperedgeTreeNode *result);
+extern HyperedgeTreeVerifHook hyperedgeTreeVerifHook;
+#endif
+
 
 }
 #endif
